@@ -172,5 +172,5 @@ class FluxBinner(Binner):
         output['binned_wngrid'] = self._wngrid
         output['binned_wlgrid'] = 10000/self._wngrid
         output['binned_wnwidth'] = self._wngrid_width
-        output['binned_wlwidth'] = 1.0/self._wngrid_width
+        output['binned_wlwidth'] = 10000*self._wngrid_width/self._wngrid**2
         return output
